@@ -1,9 +1,10 @@
 (* Property C02 — Every read API describes one and the same graph.
    Only pinned statements; proofs in Proofs/QueryOk.v on top of the WF invariant
    (which holds after every history: C01_model_reachable_WF). *)
-From Coq Require Import List Bool Permutation.
+From Coq Require Import String List Bool Permutation.
 From GV Require Import Base.Outcome Base.AMap Model.GState Model.Creation Model.Query Spec.AGraph.
 From GV Require Import Proofs.WFDefs Proofs.AdjOk Proofs.QueryOk.
+From GV Require Import Spec.ReachDef Spec.CompSpec Spec.EdgeAdj Proofs.CompWF.
 Import ListNotations.
 
 Section C02.
@@ -96,4 +97,27 @@ Section C02.
                          (group teqb g (cn tltb (sp g) x y) <> None \/
                           (directed (sp g) = true /\ group teqb g (y, x) <> None))).
   Proof. exact (get_neighbor_nodes_spec teqb tltb). Qed.
+
+  (* the adjacency query the searches use (successors on a directed graph, neighbours on an
+     undirected one) succeeds on every node and lists exactly the nodes one step away along a
+     stored edge of get_all_edges (g_follow: along u -> v, on an undirected graph also against it) *)
+  Theorem C02_successors_or_neighbors : forall (g : gstate) u,
+    WF g -> In u (names g) ->
+    exists ns, get_successors_or_neighbors teqb g u = Ok ns /\
+               forall v, In v (map nname ns) <-> g_follow g u v.
+  Proof. exact (successors_or_neighbors_wf teqb tltb teqb_spec tltb_total). Qed.
+
+  (* breadth_first_search from a node returns: x first, no node twice, exactly the nodes
+     reachable from x along stored edges (reflexive-transitive closure of g_follow); from a
+     name that is not a node the unwrap of the adjacency query fails *)
+  Theorem C02_breadth_first_search : forall (g : gstate) x,
+    WF g -> In x (names g) ->
+    exists l, breadth_first_search teqb g x = Ok l /\
+              (exists t, l = x :: t) /\ NoDup l /\ (forall y, In y l <-> reach (g_follow g) x y).
+  Proof. exact (bfs_wf teqb tltb teqb_spec tltb_total). Qed.
+
+  Theorem C02_breadth_first_search_absent : forall (g : gstate) x,
+    WF g -> ~ In x (names g) ->
+    breadth_first_search teqb g x = Panic "query.rs:get_successors_or_neighbors unwrap".
+  Proof. exact (bfs_absent teqb tltb). Qed.
 End C02.
